@@ -1592,3 +1592,6 @@ def replay_refuted(cname, rf):
 def replay_input(inp):
     from bounded import c17 as b
     return b.replay_input(inp)
+
+
+USES_LEAN_LEMMAS = ['L1 pigeonhole']      # re-checked with lean (selftest/lean_check.sh, lemmas/SmtForms.lean) in the thorough tier
